@@ -14,6 +14,16 @@ BASELINE_OFF = ('cd /repo && env -u ELECTRUMX_VERIF /venv/bin/python -m pytest -
 _IDX_NOTE = ('Trusted: the fake plyvel stand-in (bound to real LevelDB by the conformance run), '
              'the reference indexer; only the default schedule is used here (schedules: C06/C07).')
 CHECKS = {
+    'C04': ('fault_enumeration',
+            'crash-point enumeration over the durable-effect log (every prefix, torn writes, '
+            'crash during recovery), real code re-opened on every post-crash image',
+            'Each scenario is recorded once; for every prefix of its effect log (file create/write/'
+            'remove, DB batch, DB put), every torn prefix of the write in progress and every prefix '
+            'of the recovery\'s own writes, fresh real objects open the image: the height must be a '
+            'committed one not below the last completed flush, all observables must equal the '
+            'reference at that height, and the resumed sync must end like the uninterrupted run.',
+            'Crash = process death (no power-loss model); LevelDB batches/puts atomic; first-time '
+            'database creation excluded (not "during block processing or a flush").', '3/C04'),
     'C03': ('exploration',
             'exhaustive bounded enumeration of fork histories on the real block processor, '
             'differential against a fresh real server',
